@@ -16,7 +16,7 @@ M = [
  ("c04-timeout-skips-embedded-qc", "consensus/src/messages.rs", "        if self.high_qc != QC::genesis() {\n            self.high_qc.verify(committee)?;\n        }\n        Ok(())", "        Ok(())", ["C04","C10"]),
  ("c05-commit-b1", "consensus/src/core.rs", "            self.commit(b0).await?;", "            self.commit(b1.clone()).await?;", ["C05","C02"]),
  ("c06-no-timer-reset-on-advance", "consensus/src/core.rs", "        // Reset the timer and advance round.\n        self.timer.reset();\n", "", ["C06","C10"]),
- ("c06-tc-not-broadcast", "consensus/src/core.rs", "            self.network\n                .broadcast(addresses, Bytes::from(message))\n                .await;\n\n            // Make a new block if we are the next leader.\n            if self.name == self.leader_elector.get_leader(self.round) {\n                self.generate_proposal(Some(tc)).await;", "            let _ = (addresses, message);\n\n            // Make a new block if we are the next leader.\n            if self.name == self.leader_elector.get_leader(self.round) {\n                self.generate_proposal(Some(tc)).await;", ["C06"]),
+ ("c06-tc-not-broadcast", "consensus/src/core.rs", "            self.network\n                .broadcast(addresses, Bytes::from(message))\n                .await;\n\n            // Make a new block if we are the next leader.\n            if self.name == self.leader_elector.get_leader(self.round) {\n                self.generate_proposal(Some(tc)).await;", "            let _: (Vec<std::net::SocketAddr>, Vec<u8>) = (addresses, message);\n\n            // Make a new block if we are the next leader.\n            if self.name == self.leader_elector.get_leader(self.round) {\n                self.generate_proposal(Some(tc)).await;", ["C06"]),
  ("c06-no-proposal-after-tc", "consensus/src/core.rs", "            // Make a new block if we are the next leader.\n            if self.name == self.leader_elector.get_leader(self.round) {\n                self.generate_proposal(Some(tc)).await;\n            }\n        }\n        Ok(())\n    }\n\n    #[async_recursion]\n    async fn advance_round", "        }\n        Ok(())\n    }\n\n    #[async_recursion]\n    async fn advance_round", ["C06"]),
  ("c06-timer-not-rearmed-after-timeout", "consensus/src/core.rs", "        // Reset the timer.\n        self.timer.reset();\n\n        // Broadcast the timeout message.", "        // Broadcast the timeout message.", ["C06"]),
  ("c07-retry-disabled", "consensus/src/synchronizer.rs", "if timestamp + (sync_retry_delay as u128) < now {", "if timestamp + (sync_retry_delay as u128) < now && false {", ["C07"]),
@@ -62,7 +62,7 @@ for name, f, old, new, checks in M:
     open(f,"w").write(s.replace(old,new))
     try:
         for c in checks:
-            r = subprocess.run([CHECK, c, "--tier", "quick"], capture_output=True, text=True)
+            r = subprocess.run([CHECK, c, "--tier", "quick"] + os.environ.get("MUT_EXTRA", "").split(), capture_output=True, text=True)
             out = r.stdout + r.stderr
             verdict = "CAUGHT" if "VIOLATION" in out else ("INCONCLUSIVE" if ("INCONCLUSIVE" in out or "HARNESS" in out or r.returncode not in (0,1)) else "missed")
             m = re.findall(r"evaluations=(\d+)", out); d = re.findall(r"violation detail: \[([^\]]*)\]", out)
